@@ -185,3 +185,12 @@ def c11_verify_block_total(ctx, v):
     outs = ex.run(body, [S.Ref(S.Cell(co), (), True), S.Opaque("cx", "Context")])
     v.paths += len(outs)
     _report(v, ex, outs, "C11", "c11_verify_block_total", "verify_block")
+
+
+def c11_network_handshake_gate(ctx, v):
+    """Network::handle_handshake_response: a response the peer-level step rejected, from a peer in
+    any state (already authenticated or not), ends in a plain return — never in the reconnection
+    bookkeeping whose `expect` assumes the peer entry still exists (same obligation as C17
+    c17_network_gate)."""
+    from . import obl_c17
+    obl_c17.c17_network_gate(ctx, v)
